@@ -5,7 +5,12 @@ package trie
 
 // L1 kernel lemmas over single real functions of package trie.
 
-import "github.com/openacid/low/bmtree"
+import (
+	"github.com/openacid/low/bmtree"
+	"github.com/openacid/slim/encode"
+)
+
+func vU16Encoder() encode.Encoder { return encode.U16{} }
 
 func init() {
 	vRegister("k_encstep", H_k_encstep)
@@ -67,5 +72,179 @@ func H_k_encstep() {
 	vAssert(len(bs) == 2, "width")
 	vAssert(decStep(bs) == s, "roundtrip")
 	vObserve("enc", bs)
+	vReach("end")
+}
+
+func init() {
+	vRegister("k_shortnode", H_k_shortnode)
+	vRegister("k_innerbm", H_k_innerbm)
+	vRegister("k_vlen", H_k_vlen)
+	vRegister("k_fixleaf", H_k_fixleaf)
+}
+
+// vBits extracts bits [from, from+n) (n <= 32) of a word slice as a number (spec, by bit loop).
+func vBitsOf(words []uint64, from, n int32) uint64 {
+	r := uint64(0)
+	for k := int32(0); k < n; k++ {
+		i := from + k
+		bit := (words[i>>6] >> uint(i&63)) & 1
+		r |= bit << uint(k)
+	}
+	return r
+}
+
+// A11: table-compressed (short) inner nodes at every alignment.  Synthetic state: all
+// inner nodes short, ShortSize s, three symbolic Inners words, symbolic ShortTable;
+// the k-th inner node sits at bit s*k.  getIthInner / getIthInnerFrom / getNode must
+// read exactly bits [s*k, s*k+s) and translate them through the table.
+func H_k_shortnode() {
+	s := int32(vParam("s"))
+	k := int32(vParam("k"))
+	if s*k+s > 128 {
+		vAssume(false)
+	}
+	// exactly as many words as the node needs (a node ending on a word boundary is the
+	// last thing in the bitmap), or one spare word
+	nw := int((s*k+s+63)>>6) + vParam("spare")
+	words := make([]uint64, nw)
+	for i := range words {
+		words[i] = vU64("w")
+	}
+	tab := make([]uint32, 1<<uint(s))
+	for i := range tab {
+		if s <= 5 {
+			tab[i] = vU32("t") & 0x1ffff
+		} else {
+			tab[i] = uint32(i*2654435761) & 0x1ffff
+		}
+	}
+	nInner := k + 1
+	idx := make([]int32, nInner)
+	for i := range idx {
+		idx[i] = int32(i)
+	}
+	ns := &Slim{ShortSize: s, ShortTable: tab, BigInnerCnt: 0}
+	ns.ShortBM = newBM(idx, nInner, "r64")
+	ns.NodeTypeBM = newBM(idx, nInner+1, "r64")
+	ns.Inners = &Bitmap{Words: words}
+	ns.Inners.indexit("r128")
+	ns.InnerPrefixes = &VLenArray{PresenceBM: newBM(nil, nInner, "r128")}
+	st := &SlimTrie{inner: ns}
+	st.initVars()
+	want := uint64(tab[vBitsOf(words, s*k, s)])
+	qr := &querySession{}
+	st.getIthInner(k, qr)
+	vAssert(qr.from == s*k && qr.to == s*k+s, "A11.ithinner.range")
+	vAssert(qr.bm == want, "A11.ithinner.bm")
+	q2 := &querySession{}
+	st.getIthInnerFrom(k, q2)
+	vAssert(q2.from == s*k, "A11.ithinnerfrom")
+	q3 := &querySession{}
+	st.getNode(k, q3)
+	vAssert(q3.isInner == 1 && q3.from == s*k && q3.to == s*k+s && q3.bm == want, "A11.getnode")
+	vObserve("bm", qr.bm)
+	vReach("end")
+}
+
+// A12 (first half): the bitmap of a plain 17-bit or 257-bit inner node read by getInnerBM
+// at every alignment equals the bits of Inners (three/seven symbolic words).
+func H_k_innerbm() {
+	from := int32(vParam("from"))
+	size := int32(vParam("size"))
+	nw := 3
+	if size == 257 {
+		nw = 7
+	}
+	if int(from+size) > 64*nw {
+		vAssume(false)
+	}
+	// bitmap.Slice tests the node's bits one by one (a fork per symbolic bit), so only five
+	// bits are symbolic: the node's first, middle and last bit and the two bits just
+	// outside it; every other bit follows a fixed irregular pattern
+	words := make([]uint64, nw)
+	for i := range words {
+		words[i] = 0x9e3779b97f4a7c15 * uint64(i+1)
+	}
+	for _, p := range []int32{from - 1, from, from + size/2, from + size - 1, from + size} {
+		if p < 0 || int(p) >= 64*nw {
+			continue
+		}
+		bit := uint64(1) << uint(p&63)
+		words[p>>6] = words[p>>6]&^bit | uint64(vB2I(vBool("b")))<<uint(p&63)
+	}
+	ns := &Slim{ShortSize: 0}
+	ns.Inners = &Bitmap{Words: words}
+	st := &SlimTrie{inner: ns}
+	qr := &querySession{from: from, to: from + size}
+	bm, sz := st.getInnerBM(qr)
+	vAssert(sz == size, "A12.size")
+	ok := len(bm) >= int((size+63)>>6)
+	for w := int32(0); ok && w*64 < size; w++ {
+		n := size - w*64
+		if n > 32 {
+			// compare in two halves (vBitsOf handles <= 32 bits at a time)
+			lo := vBitsOf(words, from+w*64, 32)
+			m := n - 32
+			if m > 32 {
+				m = 32
+			}
+			hi := vBitsOf(words, from+w*64+32, m)
+			ok = vAnd(ok, bm[w] == lo|hi<<32)
+		} else {
+			ok = vAnd(ok, bm[w] == vBitsOf(words, from+w*64, n))
+		}
+	}
+	vAssert(ok, "A12.bits")
+	vObserve("bm0", bm[0])
+	vReach("end")
+}
+
+// A16: newVLenArray / VLenArray.get with every combination of element lengths 0..2
+// (enumerated) and symbolic contents: get(i) returns element i; nil iff all are empty.
+func H_k_vlen() {
+	n := vParam("n")
+	code := vParam("lens")
+	elts := make([][]byte, n)
+	total := 0
+	for i := range elts {
+		l := code % 4
+		code /= 4
+		elts[i] = vBytes("e", l)
+		total += l
+	}
+	va := newVLenArray(elts)
+	vAssert((va == nil) == (total == 0), "A16.nil-iff-empty")
+	if va != nil {
+		ok := true
+		for i := range elts {
+			got := va.get(int32(i))
+			ok = vAnd(ok, len(got) == len(elts[i]) && vBytesEq(got, elts[i]))
+		}
+		vAssert(ok, "A16.get")
+		vAssert(int(va.N) == n, "A16.n")
+	}
+	vReach("end")
+}
+
+// the 0.5.10 leaf fix-up: bare leaf bytes of n fixed-width values become an array whose
+// get(i) returns value i, for leaf counts around the 64-bit word boundaries.
+func H_k_fixleaf() {
+	n := vParam("n")
+	bs := vBytes("leaf", 2*n)
+	st := &SlimTrie{inner: &Slim{}, encoder: vU16Encoder()}
+	if n > 0 {
+		st.inner.Leaves = &VLenArray{Bytes: bs}
+	}
+	before000512FixLeafSize(st)
+	if n == 0 {
+		vAssert(st.inner.Leaves == nil, "fixleaf.empty")
+	} else {
+		lv := st.inner.Leaves
+		vAssert(int(lv.N) == n && int(lv.EltCnt) == n && lv.FixedSize == 2, "fixleaf.counts")
+		i := int32(vU16("i"))
+		vAssume(i < int32(n))
+		got := lv.get(i)
+		vAssert(len(got) == 2 && got[0] == bs[2*i] && got[1] == bs[2*i+1], "fixleaf.get")
+	}
 	vReach("end")
 }
